@@ -16,7 +16,8 @@ StructPrefixes == {">", "<", "=", "@"}
 IntV(neg, mag) == VInt(neg, Strip(mag))
 Bits(code) == 8 * StdSize(code)
 Vals(code) ==
-  IF CodeKind(code) = "float" THEN {VFloat(Widen(UBits(15872, 16), 5, 10)), VFloat(<<1>> \o Zeros(63)), VFloat(Widen(UBits(1, 16), 5, 10))}
+  IF CodeKind(code) = "float" THEN {VFloat(Widen(UBits(15872, 16), 5, 10)), VFloat(<<1>> \o Zeros(63)), VFloat(Zeros(64)),
+                                     VFloat(Widen(UBits(1, 16), 5, 10))}
   ELSE IF CodeKind(code) = "uint" THEN {IntV(0, <<>>), IntV(0, Ones(Bits(code))), IntV(0, <<1>> \o Zeros(Bits(code)))}
   ELSE {IntV(1, <<1>> \o Zeros(Bits(code) - 1)), IntV(0, Ones(Bits(code) - 1)), IntV(1, <<1>>), IntV(0, <<1>> \o Zeros(Bits(code) - 1))}
 CodeSeqs == UNION {[1..k -> Codes] : k \in 1..K}
